@@ -224,11 +224,12 @@ func TestIDsDistinctConcurrent(t *testing.T) {
 type SplitCase struct {
 	Sizes []int `json:"sizes"`
 	Bound int   `json:"bound"`
+	IDLen int   `json:"idlen"` // 16 + 4 per ssid word
 }
 
 func genSplit(t *rapid.T) SplitCase {
-	c := SplitCase{Bound: rapid.SampledFrom([]int{1, 30, 47, 48, 49, 100, 500, 1000, 5000}).Draw(t, "bound")}
-	for i, n := 0, rapid.IntRange(0, 30).Draw(t, "n"); i < n; i++ {
+	c := SplitCase{Bound: rapid.SampledFrom([]int{1, 30, 47, 48, 49, 100, 500, 1000, 5000, 20000}).Draw(t, "bound"), IDLen: rapid.SampledFrom([]int{24, 24, 16, 28, 48, 112}).Draw(t, "idlen")}
+	for i, n := 0, rapid.SampledFrom([]int{0, 1, 2, 5, 10, 30, 30, 200}).Draw(t, "n"); i < n; i++ {
 		c.Sizes = append(c.Sizes, rapid.SampledFrom([]int{0, 1, 2, 10, 50, 100, 452, 453, 454, 4000}).Draw(t, "size"))
 	}
 	return c
@@ -240,7 +241,7 @@ func runSplit(c SplitCase) vkit.Result {
 	var f message.Frame
 	fits := true
 	for i, n := range c.Sizes {
-		m := message.Message{ID: bytes.Repeat([]byte{byte(i)}, 24), Channel: []byte("a/"), Payload: bytes.Repeat([]byte{byte(i)}, n), TTL: uint32(i)}
+		m := message.Message{ID: bytes.Repeat([]byte{byte(i)}, c.IDLen), Channel: []byte("a/"), Payload: bytes.Repeat([]byte{byte(i)}, n), TTL: uint32(i)}
 		f = append(f, m)
 		if msgSize(m) >= c.Bound {
 			fits = false
